@@ -113,6 +113,10 @@ DenyReasons(t, role, mut, rc, principal, actor) ==
 (*   backend   : "sqlite" (queue tools act on the local database) | "proxy" *)
 (*               (queue backend memory: queue tools forward to the Admin   *)
 (*               API, so an effect on the queue is a forwarded request)    *)
+(*   conf      : what the server was started with: "all" | "nocfg" (empty   *)
+(*               --config) | "nopid" (empty --pid-file) | "nodb" (empty    *)
+(*               --db).  With nothing configured no path is the configured *)
+(*               one: every supplied path / pid_file is "foreign".         *)
 (*   wire      : "object" | "absent" (no arguments member) | "nonobject"   *)
 (*               (arguments is not a JSON object: a malformed request)     *)
 (*   valid     : the arguments are the valid minimal ones, so a call that  *)
@@ -129,13 +133,14 @@ BaseLab(t, actor) ==
    mode  |-> IF t = "config_apply" THEN "write_only" ELSE IF t \in ConfigLifecycleTools THEN "default" ELSE "none",
    wire  |-> "object",
    backend |-> "sqlite",
+   conf  |-> "all",
    valid |-> TRUE]
 
 \* no arguments at all: every documented default applies
 NoArgsLab(t, w) ==
   [path |-> "none", pid |-> "none", extra |-> FALSE, actor |-> "absent",
    mode |-> IF t = "config_apply" THEN "preview_only" ELSE IF t \in ConfigLifecycleTools THEN "default" ELSE "none",
-   wire |-> w, backend |-> "sqlite", valid |-> FALSE]
+   wire |-> w, backend |-> "sqlite", conf |-> "all", valid |-> FALSE]
 
 PathShapes  == {"path_absent", "path_foreign", "path_dotdot_foreign", "path_symlink_foreign", "path_dirlink_dotdot",
                 "path_relative", "path_alias_dotdot", "path_alias_symlink", "path_badtype"}
@@ -148,7 +153,12 @@ ApplyShapes == {"content_noparse_preview", "content_noparse_write", "content_nop
 UpsertShapes == {"mode_preview", "mode_reload_up", "mode_reload_down"}
 WireShapes  == {"args_absent", "args_nonobject"}
 ProxyShapes == {"proxy_minimal", "proxy_actor"}
-Shapes == {"minimal", "extra_key", "wrongtype"} \cup WireShapes \cup ProxyShapes \cup PathShapes \cup PidShapes \cup ActorShapes \cup ApplyShapes \cup UpsertShapes
+\* servers started without a config path / pid file / db path ("touch only the configured config path": with nothing
+\* configured nothing may be adopted from the caller)
+NoCfgShapes == {"nocfg_path_scratch", "nocfg_path_foreign", "nocfg_path_newdir", "nocfg_path_absent"}
+NoPidShapes == {"nopid_pid_scratch", "nopid_pid_foreign", "nopid_pid_absent"}
+NoDbShapes  == {"nodb_minimal"}
+Shapes == {"minimal", "extra_key", "wrongtype"} \cup WireShapes \cup ProxyShapes \cup NoCfgShapes \cup NoPidShapes \cup NoDbShapes \cup PathShapes \cup PidShapes \cup ActorShapes \cup ApplyShapes \cup UpsertShapes
 
 ShapeApplies(t, s) ==
   CASE s = "minimal"       -> TRUE
@@ -157,6 +167,9 @@ ShapeApplies(t, s) ==
     [] s \in WireShapes   -> t \in AllTools
     [] s = "proxy_minimal" -> t \in ProxyTools
     [] s = "proxy_actor"   -> t \in QueueMutationTools
+    [] s \in NoCfgShapes  -> t \in PathTools
+    [] s \in NoPidShapes  -> t \in PidTools
+    [] s \in NoDbShapes   -> t \in ProxyTools
     [] s \in PathShapes    -> t \in PathTools
     [] s \in PidShapes     -> t \in PidTools
     [] s \in ActorShapes   -> t \in ActorTools
@@ -173,6 +186,13 @@ ShapeLab(t, actor, s) ==
     [] s = "args_nonobject" -> NoArgsLab(t, "nonobject")
     [] s = "proxy_minimal"  -> [b EXCEPT !.backend = "proxy"]
     [] s = "proxy_actor"    -> [b EXCEPT !.backend = "proxy", !.actor = "different", !.valid = FALSE]
+    [] s \in {"nocfg_path_scratch", "nocfg_path_foreign", "nocfg_path_newdir"}
+                            -> [b EXCEPT !.conf = "nocfg", !.path = "foreign", !.valid = FALSE]
+    [] s = "nocfg_path_absent" -> [b EXCEPT !.conf = "nocfg", !.path = "none", !.valid = FALSE]
+    [] s \in {"nopid_pid_scratch", "nopid_pid_foreign"}
+                            -> [b EXCEPT !.conf = "nopid", !.pid = "foreign", !.valid = FALSE]
+    [] s = "nopid_pid_absent"  -> [b EXCEPT !.conf = "nopid", !.pid = "none", !.valid = FALSE]
+    [] s = "nodb_minimal"      -> [b EXCEPT !.conf = "nodb", !.valid = FALSE]
     [] s = "path_absent"  -> [b EXCEPT !.path = "none"]
     [] s \in {"path_foreign", "path_dotdot_foreign", "path_symlink_foreign", "path_dirlink_dotdot", "path_relative"}
                           -> [b EXCEPT !.path = "foreign", !.valid = FALSE]
